@@ -2,6 +2,7 @@ package main
 
 import (
 	"fmt"
+	"github.com/containers/nri-plugins/pkg/cpuallocator"
 	"github.com/containers/nri-plugins/pkg/utils/cpuset"
 	"path"
 	"sort"
@@ -196,6 +197,7 @@ type oracles struct {
 	lastErr   bool // the last request failed
 	// C08 direct exerciser
 	xAlloc   *allocMonitor
+	xAlloc2  cpuallocator.CPUAllocator
 	xRand    *verifrt.Rand
 	xOnline  []int
 	xSet     cpuset.CPUSet
